@@ -403,7 +403,7 @@ func (w *worker) loop(entry *ssa.Function) {
 		m := &machine{
 			eng: e, w: w, ctx: w.ctx, solver: w.solver, prefix: p,
 			globals: map[*ssa.Global]*value{}, initDone: map[*ssa.Package]bool{},
-			onces: map[*value]bool{}, pools: map[*value][]value{}, mutexes: map[*value]bool{},
+			onces: map[*value]bool{}, onceState: map[*value]int{}, pools: map[*value][]value{}, mutexes: map[*value]bool{},
 			side: map[string]value{}, entered: map[*ssa.Function]int{},
 		}
 		r := m.runPath(entry)
